@@ -712,8 +712,17 @@ func (fv *FV) callMayWriteHeap(x *ast.CallExpr) bool {
 		}
 	}
 	fn, _, isIface := fv.calleeOf(x)
+	if fn != nil && isIface {
+		// interface methods classified in noeffect.txt (plain or pure:) write nothing
+		if _, ok := fv.eng.pureName(fn); ok || fv.eng.noEffect(fn) {
+			return false
+		}
+	}
 	if fn == nil || isIface {
 		return true
+	}
+	if _, ok := fv.eng.pureName(fn); ok {
+		return false
 	}
 	if strings.HasPrefix(fn.Name(), "gh_") {
 		return false
